@@ -31,6 +31,7 @@ import Drivers.Repro
 import Drivers.Mixed
 import Drivers.ReconPar
 import Drivers.PartMeshb
+import Drivers.Cavity2
 
 /-! `refdrv <driver> [args]` : dispatch to a line-protocol driver. One match arm per driver, on one line. -/
 
@@ -67,6 +68,7 @@ def main (args : List String) : IO UInt32 := do
   | "mixed" :: rest => Drivers.Mixed.run rest
   | "reconpar" :: rest => Drivers.ReconPar.run rest
   | "partmeshb" :: rest => Drivers.PartMeshb.run rest
+  | "cavity2" :: rest => Drivers.Cavity2.run rest
   | _ =>
     IO.eprintln s!"refdrv: unknown driver {args}"
     return 2
